@@ -207,6 +207,7 @@ func (r *Replica) Start() error {
 	prevOpen := simrt.SQLOpen
 	simrt.SQLOpen = func(driverName, dataSourceName string) (*sql.DB, error) {
 		r.SeenDSN = dataSourceName
+		DriverName = driverName
 		opened = r.open(dataSourceName)
 		return opened, nil
 	}
